@@ -169,21 +169,24 @@ def run_map(case, ctx):
 def ens_cases(draw, tier):
     dim = draw(st.integers(1, 2))
     lo, hi = draw(lab.boxes(dim, integer=True, degenerate=False))
-    c = dict(kind=draw(st.sampled_from(['lattice', 'buckshot'])), dim=dim, lo=lo, hi=hi, seed=draw(st.integers(0, 2 ** 20)),
+    c = dict(kind=draw(st.sampled_from(['lattice', 'lattice', 'buckshot', 'buckshot', 'sparsity'])), dim=dim, lo=lo, hi=hi, seed=draw(st.integers(0, 2 ** 20)),
              nested=draw(st.sampled_from(['NM', 'PW'])),
              cost=draw(lab.cost_specs(dim, families=('quad', 'rosen', 'abs', 'cos'))),
              maxiter=draw(st.integers(2, 10)),
-             map=draw(st.sampled_from(['serial', 'reversed', 'shuffled', 'threaded'] + (['forked'] if tier == 'thorough' else []))),
+             map=draw(st.sampled_from(['serial', 'reversed', 'shuffled', 'threaded', 'copying', 'copying'] + (['forked'] if tier == 'thorough' else []))),
              order_seed=draw(st.integers(0, 1000)), step=draw(st.booleans()))
     if c['kind'] == 'lattice':
         c['nbins'] = draw(st.lists(st.integers(1, 3), min_size=dim, max_size=dim))
+        if draw(st.integers(0, 2)) == 0:
+            c['nbins'] = draw(st.sampled_from([2, 3, 4, 6, 6, 8]))      # a total: spread over the dimensions with the global random source
     else:
         c['npts'] = draw(st.integers(2, 5))
     if draw(st.integers(0, 2)) == 0:
         c['penalty'] = draw(lab.penalty_specs(dim))
+    c['mons'] = draw(st.booleans())          # evaluation and generation monitors on the ensemble (handed on to the members)
     # a termination that some members meet at their very first evaluation while the others go on iterating
     c['term'] = draw(st.sampled_from([None, None, ['vtr', 0.5], ['vtr', 5.0], ['vtr', 1e-3], ['or', 0.5], ['or', 5.0], ['cog']]))
-    if c['term'] and c['term'][0] in ('vtr', 'or') and c['kind'] == 'lattice' and draw(st.booleans()):
+    if c['term'] and c['term'][0] in ('vtr', 'or') and c['kind'] == 'lattice' and isinstance(c['nbins'], list) and draw(st.booleans()):
         # put the optimum of a quadratic bowl on one cell centre: that member starts at energy 0
         cell = [draw(st.integers(0, n - 1)) for n in c['nbins']]
         centre = [float(l) + (j + 0.5) * (float(h) - float(l)) / n for l, h, j, n in zip(lo, hi, cell, c['nbins'])]
@@ -192,12 +195,14 @@ def ens_cases(draw, tier):
 
 
 def ens_run(case, ctx, mapname, step):
-    from mystic.solvers import LatticeSolver, BuckshotSolver, NelderMeadSimplexSolver, PowellDirectionalSolver
+    from mystic.solvers import LatticeSolver, BuckshotSolver, SparsitySolver, NelderMeadSimplexSolver, PowellDirectionalSolver
     lab.reset_registry(); lab.seed_rng(case['seed'])
     dim = case['dim']
     cost = lab.Cost('c0', case['cost'])
     if case['kind'] == 'lattice':
-        s = LatticeSolver(dim, tuple(case['nbins']))
+        s = LatticeSolver(dim, tuple(case['nbins']) if isinstance(case['nbins'], list) else int(case['nbins']))
+    elif case['kind'] == 'sparsity':
+        s = SparsitySolver(dim, case['npts'])
     else:
         s = BuckshotSolver(dim, case['npts'])
     s.SetNestedSolver(NelderMeadSimplexSolver if case['nested'] == 'NM' else PowellDirectionalSolver)
@@ -211,6 +216,9 @@ def ens_run(case, ctx, mapname, step):
         if t[0] == 'vtr': s.SetTermination(T.VTR(F(t[1]), 0.0))
         elif t[0] == 'or': s.SetTermination(T.Or(T.VTR(F(t[1]), 0.0), T.ChangeOverGeneration(1e-8, 3)))
         else: s.SetTermination(T.ChangeOverGeneration(1e-6, 2))
+    if case.get('mons'):
+        from mystic.monitors import Monitor
+        s.SetEvaluationMonitor(Monitor()); s.SetGenerationMonitor(Monitor())
     if mapname != 'python':
         s.SetMapper(lab.get_map(mapname, case['order_seed']))
     s.Solve(cost, disp=0, step=step)
@@ -231,6 +239,7 @@ def run_ens(case, ctx):
                                 python_map_solve=base[k], other=other[k]))
     ctx.label('ens:' + case['kind'], 'nested:' + case['nested'], 'map:' + case['map'], 'step' if case['step'] else 'solve')
     ctx.label('term:%s' % (case['term'][0] if case.get('term') else 'default'))
+    if case.get('mons'): ctx.label('ensemble-with-monitors')
     if min(base['all_iters']) == 0 and max(base['all_iters']) >= 1:
         ctx.label('a-member-stopped-at-generation-0')
     ctx.nontrivial(len(base['all_bestEnergy']) >= 2 and max(base['all_iters']) >= 2)
